@@ -106,7 +106,14 @@ pub struct RefResult {
 #[derive(Clone, Debug, PartialEq, Eq, Serialize, Deserialize)]
 pub enum Op {
     /// Compile `key` and store the object in pool slot `slot` (replacing what was there).
-    Compile { slot: usize, key: Key },
+    Compile {
+        slot: usize,
+        key: Key,
+        /// Drop the object currently in the slot *before* compiling (address reuse inside
+        /// the new object, F5) instead of replacing it afterwards.
+        #[serde(default)]
+        drop_first: bool,
+    },
     /// F5: drop the object in `slot` and at once compile its key again into `slot`.
     Recompile { slot: usize },
     /// Empty the slot (the object dies when its last user lets go of it).
@@ -172,6 +179,10 @@ pub struct RunSpec {
     /// scheduler consults no PRNG.
     #[serde(default)]
     pub decisions: Option<Vec<u8>>,
+    /// Run the caller threads on freshly spawned OS threads instead of the worker's
+    /// long-lived caller threads (whose thread-local storage carries history).
+    #[serde(default)]
+    pub fresh_threads: bool,
 }
 
 impl RunSpec {
@@ -256,4 +267,20 @@ pub struct RunRecord {
     pub decision_list: Option<Vec<u8>>,
     pub log: Option<String>,
     pub harness_error: Option<String>,
+    /// Checkpoints (event kind, running log hash) for locating the first divergence
+    /// between two executions of the same run.
+    #[serde(default)]
+    pub trace: Option<Vec<(u8, u64)>>,
+    #[serde(default)]
+    pub pooled_threads: bool,
+    /// (hash of request + poll index, path signature) of every compared call; only when
+    /// a trace was requested.
+    #[serde(default)]
+    pub callsigs: Option<Vec<(u64, u64)>>,
+    /// Calls whose path signature differs from an earlier execution of the same request in
+    /// this worker process (the library took another path for the same call).
+    #[serde(default)]
+    pub path_impure: u64,
+    #[serde(default)]
+    pub path_impure_examples: Vec<String>,
 }
